@@ -258,10 +258,13 @@ def r5(ctx, rep):
               file=where["file"] if where else "prqlc/prqlc/src/sql/gen_projection.rs", line=where["l"] if where else None, fn=where["path"] if where else None)
     # empty IN list -> false
     f = syn.fn("gen_expr::process_array_in", crate="prqlc")
-    ok = False
-    for n in walk(f["body"]):
-        if n.get("k") == "if" and show(n["c"]) == "in_values.is_empty()":
-            ok = "Value::Boolean(false)" in show_stmts(n["t"], maxdepth=14) and "InList" in show_stmts(n["e"], maxdepth=8)
+    # (polarity-aware: `if empty {FALSE} else {IN}`, `if !empty {IN} else {FALSE}` or an early return)
+    import guards
+    par = guards.parents(f["body"])
+    at = guards.polarity_of("in_values.is_empty()")
+    inl = [n for n in walk(f["body"]) if n.get("k") == "struct" and last_seg(n["p"]) == "InList"]
+    fal = [n for n in walk(f["body"]) if n.get("k") == "call" and show(n["f"]).endswith("Value::Boolean") and show(n["a"][0]) == "false"]
+    ok = bool(inl) and bool(fal) and all(guards.side_of(par, n, at) is False for n in inl) and any(guards.side_of(par, n, at) is True for n in fal)
     rep.check(ok, "empty-in", "`in []` must become FALSE, never `IN ()`", file=f["file"], line=f["l"], fn=f["path"])
     # empty relation literal -> SELECT NULL .. WHERE false
     cands = [g for g in syn.fns_in_file("sql/gen_query.rs") if "body" in g and "rows.is_empty()" in show_stmts(g["body"], maxdepth=20)]
